@@ -1,11 +1,11 @@
 #!/bin/bash
 # Builds the harness and the ironplcc binary from /repo's current working tree, offline.
 set -e
-cd "$(dirname "$0")"
+cd "$(dirname "$0")"; ROOT="$(pwd)"
 export CARGO_NET_OFFLINE=true
 mkdir -p .build
 # one build at a time (checks may be started concurrently)
 exec 9>.build/lock
 flock 9
 (cd harness && cargo build --offline --quiet 2>&1)
-(cd /repo/compiler && cargo build --offline --quiet -p ironplcc --bin ironplcc --target-dir /verif/.build/t 2>&1)
+(cd /repo/compiler && cargo build --offline --quiet -p ironplcc --bin ironplcc --target-dir "$ROOT/.build/t" 2>&1)
